@@ -4,6 +4,7 @@ CONSTANT NAxis = 2
 CONSTANT NTrans = 1
 CONSTANT NPerm = 1
 CONSTANT NShift = 1
+CONSTANT NIcode = 1
 CONSTANT MaxSteps = 4
 INVARIANT Deliverable
 INVARIANT TypeOK
